@@ -51,9 +51,6 @@ class C06(Check):
         @given(st.integers(0, 4).flatmap(lambda m: gens_rich.rich_grammar(nrules=4, depth=3, mode='bytes' if m == 0 else 'text')),
                st.data())
         def prop(g, data):
-            if runner.time_left() < 0:
-                res.truncated = True
-                return
             res.hist['mode_' + g.mode] += 1
             entries = [e for e in gens_rich.entry_points(g) if e[0] in 'RKsF' and has_call(g, e)]
             if not entries:
@@ -63,6 +60,8 @@ class C06(Check):
                 st.lists(st.text(alphabet='ab12Z', min_size=1, max_size=8), min_size=30, max_size=30))
             if g.mode == 'bytes':
                 inputs = [t.encode('latin-1') for t in inputs]
+            if runner.over_budget(res):
+                return
             res.hist['grammars'] += 1
             named = sut.fresh_name('vfc06_')
             try:
@@ -72,7 +71,10 @@ class C06(Check):
                 sut.forget(named)
             # oracle 2: expansion
             self.check_expansion(res, g, entries, inputs)
-        prop()
+        try:
+            prop()
+        except runner.StopTask:
+            pass
         return res
 
     def check_expansion(self, res, g, entries, inputs):
